@@ -107,14 +107,38 @@ class Filler:
 
 
 def near_miss(rng, tpl):
-    """the same arm template with one operator replaced by its non-commutative sibling
-    (+ -> -, * -> /): shapes just outside a rule's pattern, where a widened
-    applicability test would start to fire"""
+    """the same arm template with operators replaced by their non-commutative siblings: one
+    '+'/'*' -> '-'/'/' , or every '+' -> '-', or every '*' -> '/' or '^'.  These are the shapes
+    just outside a rule's pattern, where a widened applicability test would start to fire."""
     idx = [i for i, ch in enumerate(tpl) if ch in "+*" and i > 0 and tpl[i - 1] == " "]
     if not idx:
         return tpl
-    i = rng.choice(idx)
-    return tpl[:i] + ("-" if tpl[i] == "+" else "/") + tpl[i + 1:]
+    mode = rng.random()
+    if mode < 0.5:
+        i = rng.choice(idx)
+        return tpl[:i] + ("-" if tpl[i] == "+" else "/") + tpl[i + 1:]
+    out = list(tpl)
+    plus_to = "-"
+    star_to = rng.choice(["/", "/", "^"])
+    which = rng.choice(["+", "*", "both"])
+    for i in idx:
+        if tpl[i] == "+" and which in ("+", "both"):
+            out[i] = plus_to
+        elif tpl[i] == "*" and which in ("*", "both"):
+            out[i] = star_to
+    return "".join(out)
+
+
+def substituted(text):
+    """deterministic operator-substituted variants of a concrete text (used for the guaranteed
+    arm texts): every ' + ' -> ' - ', every ' * ' -> ' / ', every ' * ' -> ' ^ '"""
+    out = []
+    if " + " in text:
+        out.append(text.replace(" + ", " - "))
+    if " * " in text:
+        out.append(text.replace(" * ", " / "))
+        out.append(text.replace(" * ", " ^ "))
+    return out
 
 
 def template_expr(rng):
